@@ -29,6 +29,7 @@
 import PercevalModel.Lemmas.C17
 import PercevalModel.Lemmas.C17X
 import PercevalModel.Lemmas.C17R
+import PercevalModel.Lemmas.C17Y
 
 set_option linter.unusedSimpArgs false
 
@@ -1351,5 +1352,221 @@ theorem rerun_second_read_throttled_witness :
     (rerunAt true 4 ⟨born 1, 0⟩ 10 10 (.status "running" 0) (.status "error" 0) (.ok 2) false).2 =
       ⟨.raised .notRerunnable, [.status (some 1)]⟩ := by
   decide +kernel
+
+/-! # third extension (`Model/C17Y.lean`): results on the content of the answer UNDER the real throttle,
+re-creation from the dictionary / from the id under the real clock
+
+`ystep` = one object with the status part, the content of `_results` and `_previous_status_refresh`:
+the base operations are those of the clocked machine (`kstep`), `get_results` is `getResultsY`
+(`getResultsR` with each status read throttled at its own time), `reopen` continues with
+`_from_dict(_to_dict())` (a NEW object: `_previous_status_refresh = 0.`, `_results = None`). -/
+
+/-- With a negative refresh delay and a clock that does not run backwards, the combined machine IS
+the results machine of part R over every history of timed operations: same job, same stored value,
+same outputs.  So running the real code with `STATUS_REFRESH_DELAY = -1` in the results
+correspondence loses nothing, and every theorem about `rstep` speaks about the object with a clock. -/
+theorem clocked_results_machine_negative_delay_is_plain (fixed : Bool) (delay : Int) (hd : delay < 0)
+    (ys : List YOp) (hmono : YMonotone 0 ys) :
+    (run (ystep fixed delay) yinit ys).1.r = (run (rstep fixed) rinit (ys.filterMap YOp.plain)).1 ∧
+    (run (ystep fixed delay) yinit ys).2 = (run (rstep fixed) rinit (ys.filterMap YOp.plain)).2 :=
+  yrun_neg fixed delay hd ys yinit 0 (Int.le_refl 0) (Int.le_refl 0) hmono
+
+example : YMonotone 0 [.base 1 1 (.execute (.ok 1)), .getResults 1 2 .conn .conn .noKey] :=
+  ⟨1, 1, rfl, by decide, by decide, 1, 2, rfl, by decide, by decide, trivial⟩
+
+/-- a final job does not look at the clock: whatever the delay and the times, every operation on it
+(incl. `get_results` on the content of the answer) is the operation of the results machine — so
+`failed_job_reports_message_full`, `mapping_applied_once`, `unmapped_results_untouched` … hold of
+the final job under the real throttle -/
+theorem clocked_results_final_job_ignores_clock (fixed : Bool) (delay : Int) (s : YJob) (y : YOp) (rop : ROp)
+    (hp : y.plain = some rop) (hfin : s.job.status.completed = true) :
+    (ystep fixed delay s y).1.r = (rstep fixed s.r rop).1 ∧
+    (ystep fixed delay s y).2 = (rstep fixed s.r rop).2 :=
+  ystep_final fixed delay s y rop hp hfin
+
+example : (YOp.getResults 3 9 .conn .conn .badJson).plain = some (.getResults .conn .conn .badJson) ∧
+    (⟨{ born 1 with status := .error }, none, 0⟩ : YJob).job.status.completed = true := by decide
+
+/-- "Results are refused while the job is unfinished", for every delay and every clock: when the first
+status read (sent or held back by the throttle) leaves a status that is not
+SUCCESS / ERROR / CANCELED / UNKNOWN in force, `get_results` raises 'still running', sends no results
+request whatever the server would have answered, and stores nothing. -/
+theorem results_refused_while_unfinished_under_throttle (fixed : Bool) (delay : Int) (s : YJob)
+    (n1 n2 : Int) (r1 r2 : Resp) (b : RBody)
+    (hok : (readStatusAt fixed delay s.t n1 r1).2.1 = none)
+    (hun : (readStatusAt fixed delay s.t n1 r1).1.job.status.maybeCompleted = false) :
+    (getResultsY fixed delay s n1 n2 r1 r2 b).2 =
+      ⟨.raised (.base .stillRunning), (readStatusAt fixed delay s.t n1 r1).2.2⟩ ∧
+    (getResultsY fixed delay s n1 n2 r1 r2 b).1.val = s.val ∧
+    ∀ c ∈ (getResultsY fixed delay s n1 n2 r1 r2 b).2.calls, isResultsCall c = false := by
+  rw [getResultsY_refused fixed delay s n1 n2 r1 r2 b hok hun]
+  exact ⟨rfl, rfl, readStatusAt_no_results_call fixed delay s.t n1 r1⟩
+
+example : (readStatusAt true 4 (⟨born 1, none, 0⟩ : YJob).t 3 (.status "completed" 0)).2.1 = none ∧
+    (readStatusAt true 4 (⟨born 1, none, 0⟩ : YJob).t 3 (.status "completed" 0)).1.job.status.maybeCompleted = false := by
+  decide +kernel
+
+/-- inside the refresh delay `get_results` asks the server nothing about the status and decides on
+what the object holds: refused when the held status is unfinished; the cached value when it holds a
+truthy result and a final status; the results request otherwise (held status UNKNOWN, or final
+without a truthy result) -/
+theorem throttled_get_results_uses_held_state (fixed : Bool) (delay : Int) (s : YJob) (n1 n2 : Int)
+    (r1 r2 : Resp) (b : RBody) (h1 : n1 - s.prev ≤ delay) (h2 : n2 - s.prev ≤ delay) :
+    getResultsY fixed delay s n1 n2 r1 r2 b =
+      if !s.job.status.maybeCompleted then (s, ⟨.raised (.base .stillRunning), []⟩)
+      else if truthyVal s.val && s.job.status.completed then (s, ⟨.value (s.val.getD .null), []⟩)
+      else (⟨(fetch s.job s.val [] b).1.job, (fetch s.job s.val [] b).1.val, s.prev⟩, (fetch s.job s.val [] b).2) :=
+  getResultsY_throttled fixed delay s n1 n2 r1 r2 b h1 h2
+
+example : (3 : Int) - 0 ≤ 4 := by decide
+
+/-- … which the throttle can turn against the server's word: the server says the job is still running,
+but the object was told UNKNOWN half a delay ago — the results request goes out (delay 4, read at
+time 10, `get_results` at time 12).  Code as it is; the property does not speak about the throttle. -/
+theorem throttled_results_request_on_stale_unknown_witness :
+    (getResultsY true 4 ⟨{ born 1 with status := .unknown }, none, 10⟩ 12 12
+        (.status "running" 0) (.status "running" 0) .noKey).2 =
+      ⟨.raised (.base .unavailable), [.results (some 1)]⟩ := by
+  decide +kernel
+
+/-- `cached_results_stable` under the real throttle: once a final job holds a truthy result, over EVERY
+later history on that object (any operations at any times, any answers, any delay) every
+`get_results` returns that very value without any request, no results request is ever sent again and
+the stored value never changes. -/
+theorem cached_results_stable_under_throttle (fixed : Bool) (delay : Int) (s : YJob) (p : Payload)
+    (post : List YOp) (hfin : s.job.status.completed = true) (hv : s.val = some p) (ht : p.truthy = true)
+    (hk : ∀ y ∈ post, y.keeps = true) :
+    (exec (ystep fixed delay) s post).val = some p ∧
+    (∀ n1 n2 r1 r2 b,
+      (ystep fixed delay (exec (ystep fixed delay) s post) (.getResults n1 n2 r1 r2 b)).2 = ⟨.value p, []⟩) ∧
+    ∀ o ∈ (run (ystep fixed delay) s post).2, ∀ c ∈ o.calls, isResultsCall c = false := by
+  have hstep : ∀ (x : YJob) (y : YOp), y.keeps = true →
+      (x.job.status = s.job.status ∧ x.val = some p) →
+      ((ystep fixed delay x y).1.job.status = s.job.status ∧ (ystep fixed delay x y).1.val = some p) ∧
+        ∀ c ∈ (ystep fixed delay x y).2.calls, isResultsCall c = false := by
+    intro x y hy hx
+    have hc : x.job.status.completed = true := by rw [hx.1]; exact hfin
+    obtain ⟨⟨h1, h2⟩, h3, _⟩ := ystep_final_cached fixed delay x y p hy hc hx.2 ht
+    exact ⟨⟨h1.trans hx.1, h2⟩, h3⟩
+  have hinv := inv_exec_of (ystep fixed delay) (fun y => y.keeps = true)
+    (fun x => x.job.status = s.job.status ∧ x.val = some p)
+    (fun x y hy hx => (hstep x y hy hx).1) s ⟨rfl, hv⟩ post hk
+  refine ⟨hinv.2, ?_, outputs_run_of (ystep fixed delay) (fun y => y.keeps = true)
+    (fun x => x.job.status = s.job.status ∧ x.val = some p)
+    (fun o => ∀ c ∈ o.calls, isResultsCall c = false) hstep s ⟨rfl, hv⟩ post hk⟩
+  intro n1 n2 r1 r2 b
+  have hc : (exec (ystep fixed delay) s post).job.status.completed = true := by rw [hinv.1]; exact hfin
+  exact (ystep_final_cached fixed delay _ (.getResults n1 n2 r1 r2 b) p rfl hc hinv.2 ht).2.2 n1 n2 r1 r2 b rfl
+
+example : ∀ y ∈ [YOp.base 5 5 (.poll .status .conn), .getResults 5 9 .conn .conn .badJson,
+      .base 9 9 (.rerun .conn .conn (.ok 2) false)], y.keeps = true := by
+  decide
+
+/-- `reopen` is the dictionary round trip of `dict_roundtrip` on the job part, and the object it yields
+is new: `_results = None`, `_previous_status_refresh = 0.` -/
+theorem reopen_is_dict_roundtrip (fixed : Bool) (delay : Int) (s : YJob) :
+    (ystep fixed delay s .reopen).1 = ⟨restoreJ s.job, none, 0⟩ ∧
+    (ystep fixed delay s .reopen).2 = ⟨.base .ok, []⟩ := ⟨rfl, rfl⟩
+
+/-- so the throttle does not survive the dictionary: whenever the original last asked, the first
+status-dependent call on the re-created object of a sent unfinished job at any time later than the
+delay (every real clock) reaches the server, and is the read of the main model … -/
+theorem reopened_job_first_read_reaches_server (fixed : Bool) (delay : Int) (s : YJob) (now : Int) (r : Resp)
+    (hdue : statusDue s.job = true) (hnow : now > delay) :
+    statusDue (ystep fixed delay s .reopen).1.job = true ∧
+    readStatusAt fixed delay (ystep fixed delay s .reopen).1.t now r =
+      (⟨(readStatus fixed (restoreJ s.job) r).1, now⟩, (readStatus fixed (restoreJ s.job) r).2.1,
+       [.status s.job.id]) := by
+  have hid : s.job.id.isSome = true := by
+    simp only [statusDue, Bool.and_eq_true] at hdue; exact hdue.1
+  have hd2 : statusDue (restoreJ s.job) = true := by
+    simp only [statusDue, restoreJ, hid, if_true] at hdue ⊢; exact hdue
+  refine ⟨hd2, ?_⟩
+  have h := readStatusAt_overdue fixed delay ⟨restoreJ s.job, 0⟩ now r hd2 (by simpa using hnow)
+  have hc : (readStatus fixed (restoreJ s.job) r).2.2 = [.status s.job.id] := by
+    cases r <;> simp [readStatus, hd2] <;> rfl
+  rw [← hc]
+  exact h
+
+example : statusDue (⟨born 1, none, 50⟩ : YJob).job = true ∧ (51 : Int) > 4 := by decide
+
+/-- … two requests inside one delay, by witness (delay 4): a read at time 10 is sent, a second read
+at time 11 is held back, the object re-created from the dictionary at time 11 asks again -/
+theorem reopen_resets_throttle_witness :
+    ((run (ystep true 4) ⟨born 1, none, 0⟩
+        [.base 10 10 (.poll .status (.status "running" 0)), .base 11 11 (.poll .status (.status "running" 0)),
+         .reopen, .base 11 11 (.poll .status (.status "running" 0))]).2.map (·.calls)) =
+      [[.status (some 1)], [], [], [.status (some 1)]] := by
+  decide +kernel
+
+/-- `RemoteJob.from_id(n)` under the real clock: at any time later than the delay it sends exactly one
+status request for `n`; an exception of that read propagates and no object is returned; otherwise the
+object shows what the main model's read shows and has asked at `now` -/
+theorem from_id_asks_server (fixed : Bool) (delay : Int) (n : Nat) (now : Int) (r : Resp) (h : now > delay) :
+    (resumeAt fixed delay n now r).2.2 = [.status (some n)] ∧
+    (resumeAt fixed delay n now r).2.1 = (readStatus fixed (born n) r).2.1 ∧
+    (resumeAt fixed delay n now r).1 =
+      if (readStatus fixed (born n) r).2.1.isSome then none
+      else some ⟨(readStatus fixed (born n) r).1, none, now⟩ := by
+  rw [resumeAt_overdue fixed delay n now r h]
+  have hc := readStatus_born_calls fixed n r
+  generalize readStatus fixed (born n) r = q at hc
+  obtain ⟨j, e, c⟩ := q
+  cases e <;> simp_all
+
+example : (100 : Int) > 4 := by decide
+
+/-- … whereas on a clock that has not yet passed the delay (`_previous_status_refresh` starts at 0.)
+`from_id` asks nothing and shows WAITING whatever the server knows.  Code as it is. -/
+theorem from_id_throttled_witness :
+    resumeAt true 4 7 3 (.status "error" 0) = (some ⟨born 7, none, 0⟩, none, []) := by
+  decide +kernel
+
+/-- `final_absorbing` on the whole object — status part, content of `_results`, real throttle — and
+THROUGH the dictionary: once a sent job shows SUCCESS / ERROR / CANCELED, over EVERY later history of
+operations at any times and with any delay (polls, cancel, rerun that is not followed, `get_results`
+with any answer, re-creation with `_from_dict(_to_dict())` any number of times) the status and the
+identifier never change and no status request is ever sent.  Both versions of the code. -/
+theorem final_absorbing_whole_object (fixed : Bool) (delay : Int) (s : YJob) (post : List YOp)
+    (hid : s.job.id.isSome = true) (hfin : s.job.status.completed = true)
+    (hns : ∀ y ∈ post, y.noSwitch = true) :
+    (exec (ystep fixed delay) s post).job.status = s.job.status ∧
+    (exec (ystep fixed delay) s post).job.id = s.job.id ∧
+    ∀ o ∈ (run (ystep fixed delay) s post).2, ∀ c ∈ o.calls, isStatusCall c = false := by
+  have hstep : ∀ (x : YJob) (y : YOp), y.noSwitch = true →
+      (x.job.status = s.job.status ∧ x.job.id = s.job.id) →
+      ((ystep fixed delay x y).1.job.status = s.job.status ∧ (ystep fixed delay x y).1.job.id = s.job.id) ∧
+        ∀ c ∈ (ystep fixed delay x y).2.calls, isStatusCall c = false := by
+    intro x y hy hx
+    obtain ⟨h1, h2, h3⟩ := ystep_final_absorbing fixed delay x y hy (by rw [hx.2]; exact hid)
+      (by rw [hx.1]; exact hfin)
+    exact ⟨⟨h1.trans hx.1, h2.trans hx.2⟩, h3⟩
+  have hinv := inv_exec_of (ystep fixed delay) (fun y => y.noSwitch = true)
+    (fun x => x.job.status = s.job.status ∧ x.job.id = s.job.id)
+    (fun x y hy hx => (hstep x y hy hx).1) s ⟨rfl, rfl⟩ post hns
+  exact ⟨hinv.1, hinv.2, outputs_run_of (ystep fixed delay) (fun y => y.noSwitch = true)
+    (fun x => x.job.status = s.job.status ∧ x.job.id = s.job.id)
+    (fun o => ∀ c ∈ o.calls, isStatusCall c = false) hstep s ⟨rfl, rfl⟩ post hns⟩
+
+example : (⟨{ born 1 with status := .canceled }, none, 7⟩ : YJob).job.id.isSome = true ∧
+    (⟨{ born 1 with status := .canceled }, none, 7⟩ : YJob).job.status.completed = true ∧
+    ∀ y ∈ [YOp.reopen, .getResults 5 9 .conn .conn .badJson, .base 9 9 (.rerun .conn .conn (.ok 2) false), .reopen],
+      y.noSwitch = true := by decide
+
+/-- "sent at most once" on the whole object under the real throttle and through re-creation: once the
+object has an identifier, no history of ANY operations at any times (polls, cancel, rerun followed into
+the new job or not, `get_results` on any answer, `execute_async` again, `_from_dict(_to_dict())`) ever
+calls `create_job`, and the object at hand always has an identifier (repaired code) -/
+theorem sent_object_never_creates_under_throttle (delay : Int) (s : YJob) (post : List YOp)
+    (hid : s.job.id.isSome = true) :
+    (exec (ystep true delay) s post).job.id.isSome = true ∧
+    ∀ o ∈ (run (ystep true delay) s post).2, countCreate o.calls = 0 := by
+  have hinv := inv_exec_of (ystep true delay) (fun _ => True) (fun x => x.job.id.isSome = true)
+    (fun x y _ hx => (ystep_sent delay x y hx).1) s hid post (fun _ _ => trivial)
+  exact ⟨hinv, outputs_run_of (ystep true delay) (fun _ => True) (fun x => x.job.id.isSome = true)
+    (fun o => countCreate o.calls = 0) (fun x y _ hx => ystep_sent delay x y hx) s hid post
+    (fun _ _ => trivial)⟩
+
+example : (⟨born 1, none, 0⟩ : YJob).job.id.isSome = true := rfl
 
 end PM.C17
